@@ -99,7 +99,7 @@ def gen(seed, idx, tier):
     for i in range(n):
         if i == bad_at:
             kind = r.choice(["proto", "mtype", "rc", "length"])
-            kw = {"proto": r.choice([0, 2, 0xFF])} if kind == "proto" else {"mtype": r.choice([3, 0x7F, 0xFF])} if kind == "mtype" else {"rc": r.choice([0x0B, 0x20, 0xFF])} if kind == "rc" else {"length": r.randint(0, 7)}
+            kw = {"proto": r.choice([0, 2, 0xFF])} if kind == "proto" else {"mtype": r.choice([3, 0x7F, 0xFF, 0x20, 0x21, 0x22, 0x60, 0xA0, 0xE1, 0x82, 0x43])} if kind == "mtype" else {"rc": r.choice([0x0B, 0x20, 0xFF])} if kind == "rc" else {"length": r.randint(0, 7)}
             parts.append(msg(r, **kw))
         else:
             parts.append(msg(r))
